@@ -311,6 +311,26 @@ func (j *Judge) Maintain(c *Context, res *drummer.VerifSchedResult, exhausted bo
 	}
 	if res.Err != "" {
 		run.Count("sched:maintain_error")
+		if res.Err == "not enough node host" {
+			// C05 "a NodeHost that reported more recently than the timeout is eligible": the only way to this error is a
+			// replacement that found no host; a host that reported less than the timeout ago and hosts nothing at all is
+			// suitable for every shard, so the search cannot have come back empty
+			names := []string{}
+			for a := range c.NodeHostImage.Nodehosts {
+				names = append(names, a)
+			}
+			sort.Strings(names)
+			for _, a := range names {
+				h := c.NodeHostImage.Nodehosts[a]
+				if h.Tick <= c.Tick && c.live(h) && len(h.Shards) == 0 {
+					run.Count("c05:eligible_host_checked")
+					why := fmt.Sprintf("the round failed with %q although NodeHost %s reported %d logical seconds ago (timeout %d) and hosts no replica of any shard: a recent host was not eligible for placement", res.Err, a, c.Tick-h.Tick, TTL)
+					j.fail("C05", "recent_host_eligible", "recent-host-not-eligible-for-placement", why)
+					j.fail("C01", "no_silent_stall", "recent-host-not-eligible-for-placement", why)
+					break
+				}
+			}
+		}
 		return
 	}
 	cls := classOf(res)
